@@ -23,6 +23,7 @@ class Spec:
   def inv(s,V): return z3.BoolVal(True)
   def clauses(s,V): return []
   def reset_clauses(s,V): return []      # required of a cycle with reset=1, from any state
+  def covers(s,V): return []             # situations that must be reachable in one cycle under Inv/legal (vacuity guard)
   def bmc_depth(s,cfg): return 6
 
 class View:
@@ -95,8 +96,14 @@ def verify_config(spec,cfg,repo,timeout_ms=60000):
   for name,cl in spec.clauses(V):
     res,dt,mod=solve(defs+[inv,legal,rst==0],cl,timeout_ms)
     add(name,'step','proved' if res==z3.unsat else 'unproved',dt,'',None if res==z3.unsat else dict(stage='step',clause=name))
+  # vacuity guards: the hypotheses of the step obligations are satisfiable, and the interesting events can happen
+  for name,cv in [('hypotheses',z3.BoolVal(True))]+list(spec.covers(V)):
+    sv=z3.Solver(); sv.set('timeout',timeout_ms)
+    for a in defs+[inv,legal,rst==0,cv]: sv.add(a)
+    t1=time.time(); rc=sv.check()
+    add(name,'cover','proved' if rc==z3.sat else 'unproved',time.time()-t1,'' if rc==z3.sat else 'the hypotheses of the step obligations exclude this situation: vacuous proof')
   # refutation by unrolling from the real reset state
-  bad=[o for o in obls if o['status']!='proved']
+  bad=[o for o in obls if o['status']!='proved' and o['kind']!='cover']
   if bad:
     tr=find_trace(spec,cfg,m,[o for o in bad],timeout_ms)
     for o in bad:
@@ -129,14 +136,17 @@ def find_trace(spec,cfg,m,bad,timeout_ms):
     common=list(assumps)
     assumps+= [spec.legal(V), V.inp[rsig]==0]
     views.append((V,r))
-    pending=[o for o in bad if o['name'] not in out]
+    pending=[o for o in bad if o['name'] not in out or out[o['name']].get('weak')]
     if not pending: break
     for o in pending:
       goal=None
       if o['kind']=='step':
         for nm,cl in spec.clauses(V):
           if o['name'].endswith('::'+nm): goal=cl
-      elif o['kind']=='inv': goal=spec.inv(V.shifted())
+      elif o['kind']=='inv':
+        # prefer an externally visible consequence: some clause of the statement false on a reachable cycle
+        cls=[c for _,c in spec.clauses(V)]
+        goal=z3.And(*cls) if (cls and o['name'] in out) else spec.inv(V.shifted())
       elif o['kind']=='safety': goal=z3.And(*[c for c,_ in r['safety']]) if r['safety'] else None
       elif o['kind']=='fixpoint': goal=z3.And(*[f for _,f in r['fixpoint']]) if r['fixpoint'] else None
       use=assumps
@@ -154,6 +164,9 @@ def find_trace(spec,cfg,m,bad,timeout_ms):
       for (Vj,_) in views:
         trace.append({repr(x):mod.eval(Vj.inp[x],model_completion=True).as_long() for x in m.inputs if repr(x) not in('s.clk',)})
       rr=run_trace(spec,cfg,trace,o['name'],os.environ.get('REPO','/repo'))
-      if rr['failed']: out[o['name']]=dict(inputs=trace,failed=rr['failed'])
+      if rr['failed']:
+        weak = o['kind']=='inv' and all("'inv(next)'" in f for f in rr['failed'])
+        if o['name'] in out and weak: continue
+        out[o['name']]=dict(inputs=trace,failed=rr['failed'],weak=weak)
     st=r['next']
   return out
